@@ -60,6 +60,16 @@ ReadBytes(m, a, n) ==
              off == a % PageSize
              k   == IF PageSize - off < n THEN PageSize - off ELSE n
          IN Slice(Page(m, p), off, k) \o ReadBytes(m, a + k, n - k)
+\* writes that make [a, a + n) read zero: only the pages that are stored (non-zero somewhere) and meet the range need one,
+\* so a fresh region of any size costs nothing (an allocation of tens of MiB is one step of a real program)
+RECURSIVE ZeroFillSeq(_, _, _)
+ZeroFillSeq(ps, a, n) ==
+    IF ps = {} THEN <<>>
+    ELSE LET p  == CHOOSE x \in ps : \A y \in ps : x <= y
+             lo == IF p * PageSize < a THEN a ELSE p * PageSize
+             hi == IF (p + 1) * PageSize > a + n THEN a + n ELSE (p + 1) * PageSize
+         IN <<<<lo, Zeros(hi - lo)>>>> \o ZeroFillSeq(ps \ {p}, a, n)
+ZeroFill(m, a, n) == ZeroFillSeq({p \in DOMAIN m : p * PageSize < a + n /\ (p + 1) * PageSize > a}, a, n)
 RECURSIVE ApplyWrites(_, _, _)
 ApplyWrites(m, ws, i) == IF i > Len(ws) THEN m ELSE ApplyWrites(WriteBytes(m, ws[i][1], ws[i][2]), ws, i + 1)
 
